@@ -22,7 +22,7 @@ ASSUMPTIONS = ['sensor timestamps are sorted (SensorCache._extract sorts them) a
                'on the SensorCache path remove_duplicates_and_invalid_values (property C12) is applied first: the '
                'harness keeps the last of equal timestamps before calling the model',
                'array-valued (wrapped) sensors need at least one sample (wrappedness is inferred from the first value) and '
-               'their greedy values are handed over wrapped, except in the single F20 probe',
+               'their greedy values are handed over wrapped, except in the single F27 probe',
                'equality of sensor values is equality of their ids (str, int, ndarray via ComparableArrayWrapper)']
 
 PERIOD = 2          # wire units per dump; python uses dump_period = 1.0
@@ -77,7 +77,7 @@ def impl_direct(case):
     if case['init'] is not None:
         kw['initial_value'] = enc(rep, case['init'])
     if case['greedy'] is not None:
-        # ndarray-valued greedy values must be handed over wrapped (finding F20: unwrapped ones make
+        # ndarray-valued greedy values must be handed over wrapped (finding F27: unwrapped ones make
         # `value in greedy_values` raise); case['raw_greedy'] asks for the documented unwrapped form
         wrapg = rep == 'warr' and not case.get('raw_greedy')
         kw['greedy_values'] = [ComparableArrayWrapper(enc(rep, k)) if wrapg else enc(rep, k) for k in case['greedy']]
@@ -368,7 +368,7 @@ def run(ctx):
         mo = ctx.model([wire(w)])[0] if ctx.model_ok else None
         compare(ctx, w, mo)
         ctx.count('known_finding_witness')
-    # probe of F20: documented (unwrapped) ndarray greedy values
+    # probe of F27: documented (unwrapped) ndarray greedy values
     probe = dict(ts=[-1, 1, 2], vals=[1, 3, 2], ends=[0, 2, 4], tr=None, init=None, greedy=[3], ar=False, rep='warr',
                  path='direct', raw_greedy=True)
     if not any(f['witness'] == probe for f in ctx.findings):
